@@ -40,7 +40,7 @@ CODES = {
     12: ("stop-did-not-return", "every task and worker body had been told to return and Stop had been called, but the stopper did not report itself stopped / a Stop or Quiesce call did not return"),
 }
 
-RULE = ("controlled: random operation sequences (RunTask, RunAsyncTask and RunLimitedAsyncTask with wait true/false, each with the "
+RULE = ("controlled: random operation sequences (RunTask -- every other one through RunTaskWithErr with a callback returning its own error --, RunAsyncTask and RunLimitedAsyncTask with wait true/false, each with the "
         "background context or a WithCancelOn* context that is live, already cancelled, or cancelled while the call waits for its slot, on 2 semaphores, a chosen running body returns or PANICS (Stopper built with OnPanic), "
         "RunWorker, a worker returns or panics, a task or worker body calls Stop itself before it returns (once a Stop call has been made), "
         "AddCloser, WithCancelOnQuiesce/Stop, call of a returned cancel function, Stop and Quiesce called with the background context "
